@@ -214,7 +214,7 @@ succeeded(const char *phase, pid_t pid, int status)
 	return false;
 }
 
-static void
+static bool
 buildobj(struct input *input, char *output)
 {
 	const char *phase;
@@ -224,7 +224,7 @@ buildobj(struct input *input, char *output)
 	bool success = true;
 
 	if (input->filetype == OBJ)
-		return;
+		return true;
 	if (input->stages & 1<<LINK) {
 		input->stages &= ~(1<<LINK);
 		output = strdup("/tmp/cproc-XXXXXX");
@@ -286,11 +286,9 @@ kill:
 			success = false;
 		}
 	}
-	if (!success) {
-		if (output)
-			unlink(output);
-		exit(1);
-	}
+	if (!success && output)
+		unlink(output);
+	return success;
 }
 
 static void
@@ -376,7 +374,7 @@ main(int argc, char *argv[])
 	enum filetype filetype = 0;
 	char *arg, *end, *output = NULL, *arch, *qbearch;
 	struct array inputs = {0}, *cmd;
-	struct input *input;
+	struct input *input, *prev;
 	size_t i;
 
 	argv0 = progname(argv[0], "cproc");
@@ -587,7 +585,16 @@ main(int argc, char *argv[])
 		}
 		/* only run up through the last stage */
 		input->stages &= (1 << last + 1) - 1;
-		buildobj(input, output);
+		if (!buildobj(input, output)) {
+			/* remove the temporary objects built from earlier inputs */
+			if (last == LINK) {
+				for (prev = inputs.val; prev != input; ++prev) {
+					if (prev->name && prev->filetype != OBJ)
+						unlink(prev->name);
+				}
+			}
+			return 1;
+		}
 	}
 	if (last == LINK) {
 		if (!output)
